@@ -41,6 +41,8 @@ import ASV.Proofs.RegionExtractMotif
 import ASV.Proofs.RegionOutputs
 import ASV.Proofs.RegionExtractKeptMulti
 import ASV.Proofs.RegionExtractCores
+import ASV.Proofs.RegionAnnotationsRead
+import ASV.Proofs.RegionExtractMotifOrder
 namespace ASV.C12
 open ASV ASV.RegionExtract
 
@@ -86,6 +88,30 @@ example : (buildAnnotationsHeap exHeap 2 exLaterRd).map (fun r => readTop r.1 r.
     dict with the full record and writes the region's NOTE into it: the theorem is false for it -/
 example : (buildAnnotationsShallow exHeap 2 exLaterRd).map (fun r => decide (readTop r.1 2 = readTop exHeap 2)) = some false := by
   decide
+
+/-- The annotations of the region file: `_build_annotations` (`buildAnnotationsHeap`) succeeds on every annotations
+    dict it can read, and the dict it returns for the file, read with all references resolved, says exactly what the
+    full record's says plus NOTE (plain or cross-origin), `Orig. start` and `Orig. end` in the antiSMASH-Data comment —
+    that comment updated in place (its other entries and its position among the comments kept) when the full record
+    has it, created after the other comments when it has not, the structured comment itself created when the full
+    record has none (`expectedAnn`).  Hypothesis: the names of the full record's structured comments are distinct —
+    they are the keys of a Python dict.  Together with `annotations_parent_unchanged`: the file gets the notes, the
+    full record does not. -/
+theorem annotations_file_expected (h : AHeap) (parent : Nat) (rd : RegionData) (t : AnnTree)
+    (ht : readTop h parent = some t) (hnd : ((t.sc.getD []).map (·.1)).Nodup) :
+    ∃ h' a, buildAnnotationsHeap h parent rd = some (h', a) ∧ readTop h' a = some (expectedAnn t rd) :=
+  buildAnnotations_reads h parent rd t ht hnd
+
+/-- Not vacuous: `exHeap` reads, its one comment name is distinct (see the examples above for the value); and a
+    full record with two other comments and none from antiSMASH gets the antiSMASH-Data comment after them -/
+example : (readTop exHeap 2).map (fun t => decide ((t.sc.getD []).map (·.1)).Nodup) = some true := by decide
+example : (buildAnnotationsHeap
+      [.data [("Assembly Method", "SPAdes")], .data [("Annotation Provider", "someone")],
+       .comments [("Genome-Assembly-Data", 0), ("Genome-Annotation-Data", 1)], .top [] (some 2)] 3 exLaterRd).map
+      (fun r => readTop r.1 r.2) =
+    some (some ⟨[], some [("Genome-Assembly-Data", [("Assembly Method", "SPAdes")]),
+      ("Genome-Annotation-Data", [("Annotation Provider", "someone")]),
+      ("antiSMASH-Data", [("NOTE", notePlain), ("Orig. start", "13"), ("Orig. end", "15")])]⟩) := by decide
 
 /-- The file's sequence: the part before the origin followed by the part after it for a region
     running over the origin, the plain slice otherwise. -/
@@ -275,6 +301,28 @@ def exOver : RegionData := { start := 800, «end» := 200, cands := [], subs := 
 example : (adjustMotifLoc "join{[988:1000](+), [0:18](+)}" exOver 1000).toOption = some "[188:218](+)" := by decide
 /-- … on the reverse strand as two parts in transcription order -/
 example : (adjustMotifLoc "join{[0:12](-), [982:1000](-)}" exOver 1000).toOption = some "join{[200:212](-), [182:200](-)}" := by decide
+
+/-- The same with the hypotheses on the ORIGINAL leader / tail location only, one executable condition
+    (`motifOrdered`): no part empty, every part inside the region, parts in transcription order — ascending or
+    descending when the region does not run over the origin or all parts lie on one side of it; with the origin
+    inside the leader / tail (`ringOrdered`): forward strand — the parts before the origin ascending, then those
+    after it ascending; reverse strand — those after the origin descending, then those before it descending; any
+    number of parts on each side.  That the moved parts come out in one ascending or descending run
+    (`motif_locations_partial`'s hypothesis) is now proved (`mono_ring`, `mono_same_shift`). -/
+theorem motif_locations_ordered (t : String) (l : Loc) (rd : RegionData) (L : Int) (hL : 0 < L)
+    (ht : locFromString t = some l) (hne : l.parts ≠ []) (hord : motifOrdered L rd l = true) :
+    ∃ l', adjustMotifLoc t rd L = .ok (locToString l') ∧ locFromString (locToString l') = some l' ∧
+      SameBases L rd l l' :=
+  adjustMotifLoc_ordered t l rd L hL ht hne hord
+
+/-- Not vacuous: a leader of four parts with the origin inside it, on either strand; a three-part tail after the
+    origin; and the same parts out of order are not `motifOrdered` -/
+example : motifOrdered 1000 exOver (.compound [⟨980, 985, .fwd⟩, ⟨988, 1000, .fwd⟩, ⟨0, 18, .fwd⟩, ⟨20, 30, .fwd⟩]) = true ∧
+    motifOrdered 1000 exOver (.compound [⟨20, 30, .rev⟩, ⟨0, 18, .rev⟩, ⟨988, 1000, .rev⟩, ⟨980, 985, .rev⟩]) = true ∧
+    motifOrdered 1000 exOver (.compound [⟨5, 10, .fwd⟩, ⟨20, 30, .fwd⟩, ⟨40, 50, .fwd⟩]) = true ∧
+    motifOrdered 1000 exOver (.compound [⟨0, 18, .fwd⟩, ⟨988, 1000, .fwd⟩]) = false := by decide
+example : (adjustMotifLoc "join{[980:985](+), [988:1000](+), [0:18](+), [20:30](+)}" exOver 1000).toOption =
+    some "join{[180:185](+), [188:218](+), [220:230](+)}" := by decide
 
 /-- The write does not raise: under `wfInput` every `offset_location` call of the extraction succeeds (features
     after the origin, features over the origin, core locations), and with every dictionary lookup of
